@@ -82,7 +82,14 @@ func (m *Mutex) TryLock() bool {
 	return m.real.TryLock()
 }
 
+// The runtime answers an unlock of an unlocked mutex with a fatal error that
+// no recover can catch; the simulated locks turn it into an ordinary panic (a
+// crash verdict with a replay file instead of a dead worker process).
 func (m *Mutex) Unlock() {
+	if m.real.TryLock() {
+		m.real.Unlock()
+		panic("sync: unlock of unlocked mutex")
+	}
 	m.real.Unlock()
 	if simrt.CurrentTask() != nil {
 		simrt.Call(&simrt.Req{Kind: "unlock", Site: "",
@@ -123,6 +130,10 @@ func (m *RWMutex) Lock() {
 }
 
 func (m *RWMutex) Unlock() {
+	if m.real.TryLock() {
+		m.real.Unlock()
+		panic("sync: Unlock of unlocked RWMutex")
+	}
 	m.real.Unlock()
 	if simrt.CurrentTask() != nil {
 		simrt.Call(&simrt.Req{Kind: "unlock", Site: "",
@@ -154,6 +165,10 @@ func (m *RWMutex) RLock() {
 }
 
 func (m *RWMutex) RUnlock() {
+	if m.real.TryLock() {
+		m.real.Unlock()
+		panic("sync: RUnlock of unlocked RWMutex")
+	}
 	m.real.RUnlock()
 	if t := simrt.CurrentTask(); t != nil {
 		simrt.Call(&simrt.Req{Kind: "runlock", Site: "",
